@@ -14,6 +14,7 @@ up to the logarithm; value exactly 0.0 at ns = 0; invariance under a shuffled
 event order; removal of zero-ratio events by a selection with N kept; value and
 slope continuity across the Taylor threshold."""
 import math
+import os
 import types
 import warnings
 from fractions import Fraction
@@ -23,9 +24,10 @@ import numpy as np
 from harness import common
 from harness.common import fhex
 
-GEN_MODULES = ['llh']
-MODEL_TARGETS = ['model/M_Llh.vo', 'model/M_LlhPipe.vo']
-PROOF_TARGETS = ['proofs/P_LlhK.vo', 'proofs/P_LlhValue.vo', 'proofs/P_LlhC1.vo', 'proofs/P_LlhCompose.vo']
+GEN_MODULES = ['llh', 'llhtdm']
+MODEL_TARGETS = ['model/M_Llh.vo', 'model/M_LlhPipe.vo', 'model/M_LlhTdm.vo']
+PROOF_TARGETS = ['proofs/P_LlhK.vo', 'proofs/P_LlhValue.vo', 'proofs/P_LlhC1.vo', 'proofs/P_LlhCompose.vo',
+                 'proofs/P_LlhTdm.vo']
 LEVEL = 'proof'
 RULE = ('event sets with N\' in 0..3000 selected of N >= N\' events, 1-3 sources, 1-3 ratio factors; ratios '
         'log-uniform in [1e-6,1e13] plus exact 0 and zero-background events; compositions single / product / '
@@ -47,7 +49,11 @@ TRUSTED = [
     'outside them (measured by the correspondence, tolerance 1e-11*(sum|terms|+1))',
     'the class constant _one_plus_alpha is read at run time and checked to lie in (0,1); stub PDFs / selection / '
     'weight service stand for the parts of skyllh outside this property',
-    'stacked ratio: hypothesis "every (source,event) pair listed once" is the C05 invariant, not proved here',
+    'stacked ratio: the hypothesis "every (source,event) pair listed once" is discharged for the tables stored by '
+    'TrialDataManager.initialize_trial by importing C05\'s development (props/Prop_C01_sel.v); that theorem is '
+    're-established only in runs in which C05\'s files build (otherwise a note, counted as not discharged)',
+    'event counts: the order of the statements of initialize_trial (default N before the selection) is in the '
+    'hand model M_LlhTdm.v, validated by the correspondence (n_events=None with a removing selection)',
     'python oracle of the predicates (fractions + math.log1p + math.fsum)',
 ]
 
@@ -1017,6 +1023,55 @@ def run_multi(ctx, rng, exe, opa, n):
                           predicate='value = 0 exactly at ns = 0')
 
 
+
+# --------------------------------------------------------------------------- the theorem resting on C05
+
+SEL_PROP = 'props/Prop_C01_sel.v'
+
+
+def check_selection_theorem(ctx):
+    """C01_selection_to_value imports C05's development (read-only).  It is re-established on every run in
+    which that development builds; a failure located in C05's own files is C05's business (its check reports
+    it): then the theorem is counted as not discharged and a note is written, but C01 raises no alarm."""
+    import re
+    nb = len(ctx.broken)
+    ob, di = ctx.obligations, ctx.discharged
+    ax = list(getattr(ctx, 'axioms', []))
+    tr = ctx.translator
+    try:
+        src = open(os.path.join(common.COQ, SEL_PROP)).read()
+        n_sel = len(re.findall(r'^\s*(Theorem|Example|Corollary|Lemma)\s', src, flags=re.M))
+    except OSError:
+        n_sel = 0
+    ok = common.coq_make(ctx, ['proofs/P_LlhSelect.vo'], modules=['select'])
+    if ok:
+        ok = common.check_props(ctx, SEL_PROP)
+    if tr and ctx.translator and ctx.translator is not tr:
+        merged = dict(ctx.translator)
+        merged['kernels'] = dict(tr.get('kernels', {}), **ctx.translator.get('kernels', {}))
+        merged['errors'] = list(tr.get('errors', [])) + list(ctx.translator.get('errors', []))
+        ctx.translator = merged
+    ctx.obligations = ob + n_sel
+    ctx.discharged = di + (n_sel if ok else 0)
+    ctx.axioms = sorted(set(ax) | set(getattr(ctx, 'axioms', [])))
+    if ok:
+        ctx.count('selection-theorem-reestablished')
+        return
+    new = ctx.broken[nb:]
+
+    def foreign(b):
+        if b.get('kind') == 'translator':
+            return b.get('module') == 'select'
+        txt = (b.get('file') or '') + ' ' + (b.get('error') or '')
+        mine = ('P_LlhSelect' in (b.get('file') or '')) or ('Prop_C01_sel' in (b.get('file') or ''))
+        return (not mine) and ('Select' in txt or 'G_select' in txt)
+    if new and all(foreign(b) for b in new):
+        del ctx.broken[nb:]
+        ctx.notes.append('C01_selection_to_value NOT re-established in this run: C05\'s development '
+                         '(event_selection kernels / M_Select / P_Select) does not build: '
+                         + '; '.join(str(b.get('kernel') or b.get('lemma') or b.get('file') or b.get('target')) for b in new)[:600])
+        ctx.count('selection-theorem-not-reestablished')
+
 # --------------------------------------------------------------------------- corpus / run / replay
 
 def corpus_cases():
@@ -1042,6 +1097,7 @@ def run(ctx):
         ctx.violation('ZeroSigH0SingleDatasetTCLLHRatio._one_plus_alpha', 'threshold-out-of-range',
                       f'_one_plus_alpha = {opa!r} is not in (0,1)', case={'one_plus_alpha': opa},
                       predicate='0 < threshold < 1 (needed for value 0 at ns = 0 and for log(1+alpha))')
+    check_selection_theorem(ctx)
     exe = common.ocaml_build(ctx, 'c01') if ctx.model_ok else None
     cases = corpus_cases()
     n_cases = ctx.budget(600, 30000)
